@@ -10,6 +10,13 @@ def evaluate(body, max_paths=4000, call_hook=None):
     key = (id(body.facts), body.defpath, body.promoted, id(call_hook))
     if key in _EV_CACHE:
         return _EV_CACHE[key]
+    if body.promoted is None and body.dk in ('Fn', 'AssocFn') and not getattr(body, 'inlined', None):
+        # splice unknown private mutating helpers into the caller (role helpers known to the rules stay calls)
+        from . import inline, anchors
+        try:
+            body, _ = inline.inline_body(body.facts, body, anchors.role_helpers(body.facts))
+        except Exception:
+            pass
     ev = sym.Evaluator(body, max_paths=max_paths, call_hook=call_hook)
     try:
         res = ev.run()
